@@ -30,7 +30,7 @@ RULE = (
     " Later additions: range-filter quantities (|x|, |y|, planar distance through the frame's registry) compared between the renderings; ego headings almost along a map axis; follower vehicles at the range limit; twin ground truths at map offsets up to 1e5 m; estimates on the integer map grid given as ints; runs without a registered ego pose; interpolated lookups."
 )
 ASSUMPTIONS = ["objects and ego have yaw-only rotations", "no decision within 1e-6 of a boundary in the ego-frame description (otherwise skipped)"]
-DECIDING = ["C07.interpolated_pairs_compared", "C07.pairs_compared", "C07.frames_compared", "C07.pairs_with_removed_object", "C07.pairs_with_tp", "C07.tracking_pairs", "C07.scene_compared", "C07.no_ego_pose_runs_compared", "C07.follower_pairs_compared", "C07.twin_pairs_compared", "C07.integer_map_estimates"]
+DECIDING = ["C07.interpolated_pairs_compared", "C07.pairs_compared", "C07.frames_compared", "C07.pairs_with_removed_object", "C07.pairs_with_tp", "C07.tracking_pairs", "C07.scene_compared", "C07.no_ego_pose_runs_compared", "C07.follower_pairs_compared", "C07.twin_pairs_compared", "C07.integer_map_estimates", "C07.inverse_registry_runs_compared"]
 JOBS = {"quick": 4, "thorough": 14}
 TOL = 1e-6
 
@@ -59,6 +59,8 @@ def run(ctx: Ctx) -> None:
                 run_e = Run(scn, "base_link", ds)
                 run_m = Run(scn, "map", ds)
                 run_n = Run(scn, "base_link", ds) if idx % 2 == 0 else None  # ego frame without a registered ego pose
+                run_i = Run(scn, "map", ds) if idx % 2 == 1 else None  # map frame, ego pose registered as map -> base_link
+                dig_i: List[Dict[str, Any]] = []
                 dig_e: List[Dict[str, Any]] = []
                 dig_m: List[Dict[str, Any]] = []
                 dig_n: List[Dict[str, Any]] = []
@@ -67,6 +69,8 @@ def run(ctx: Ctx) -> None:
                     dig_m.append(compare.frame_digest(run_m.add(k, negate=negate)))
                     if run_n is not None:
                         dig_n.append(compare.frame_digest(run_n.add(k, no_ego_pose=True)))
+                    if run_i is not None:
+                        dig_i.append(compare.frame_digest(run_i.add(k, inverse_registry=True)))
                 scene_e = compare.metrics_digest(run_e.manager.get_scene_result())
                 scene_m = compare.metrics_digest(run_m.manager.get_scene_result())
                 scene_n = compare.metrics_digest(run_n.manager.get_scene_result()) if run_n is not None else None
@@ -81,6 +85,14 @@ def run(ctx: Ctx) -> None:
                 d = compare.diff(scene_e, scene_n, TOL)
                 if d is not None:
                     ctx.violation("C07/ego_frame_run_depends_on_registered_ego_pose:scene_metrics", dict(scn.info, first_difference=d[:400]), tap="comparator")
+            if run_i is not None:
+                ctx.count("C07.inverse_registry_runs_compared")
+                for k, (a, b) in enumerate(zip(dig_e, dig_i)):
+                    for part in ("results", "critical_gt", "tp", "fp", "fn", "tn", "metrics", "ranges"):
+                        d = compare.diff(a[part], b[part], TOL)
+                        if d is not None:
+                            ctx.violation(f"C07/map_run_depends_on_direction_the_ego_pose_is_registered_in:{part}", dict(scn.info, frame=k, first_difference=d[:400]), tap="comparator")
+                            break
             ctx.count("C07.pairs_compared")
             removed = tp = False
             for k, (a, b) in enumerate(zip(dig_e, dig_m)):
